@@ -29,7 +29,7 @@ def check(ctx, run):
     prog, interp = ctx.prog, ctx.interp
     run.trusted += ["operator table: which operators read along the time axis"]
     run.assumptions += ["user models act on the last axis only", "a listed derivative's pricer is adapted"]
-    run.require("C02.R1", 35)
+    run.require("C02.R1", 47)
     # ---- R1
     for label, mode, ts, make in E.feature_runs(ctx):
         f = make()
@@ -57,6 +57,43 @@ def check(ctx, run):
                 run.fail(Finding("C02.R1", get.qualname, f"{label} {mode}: reads {k} columns [{sp.simplify(lo)}, {sp.simplify(hi)}]",
                                  f"the feature value for {'column j' if mode == 'batch' else 'step i'} may read columns up to {sp.simplify(hi)} of {k}: anticipative",
                                  file=str(prog.modules[get.module].path), line=get.node.lineno, case=mode))
+    # the option mixin's own methods: the Black-Scholes modules take their default parameters from them (a listed lookback or
+    # American binary option priced that way is read by the "spot" feature), so they are adapted on their own account as well
+    MIX = "pfhedge.instruments.derivative.base.OptionMixin"
+    if MIX not in prog.classes:
+        raise AnalysisError("anchor vanished: OptionMixin")
+    for meth, kws in (("moneyness", ({"log": False}, {"log": True})), ("log_moneyness", ({},)),
+                      ("max_moneyness", ({"log": False}, {"log": True})), ("max_log_moneyness", ({},))):
+        fi = prog.lookup_method(MIX, meth)
+        if fi is None:
+            raise AnalysisError(f"anchor vanished: OptionMixin.{meth}")
+        run.functions.add(fi.qualname)
+        for kw in kws:
+            for mode, ts in (("step", W.integer("i")), ("batch", None)):
+                label = f"OptionMixin.{meth}({', '.join(f'{k}={v}' for k, v in kw.items())})"
+                try:
+                    res = interp.explore(fi, [ts], dict(kw), self_obj=W.option())
+                except Unsupported as ex:
+                    raise AnalysisError(f"{fi.qualname}: {ex}")
+                live = [r for r in res if not r["raises"]]
+                if not live:
+                    raise AnalysisError(f"{fi.qualname} ({mode}): no analysable path")
+                for r in live:
+                    w = Window(market_names={"deriv.pricer"})
+                    try:
+                        d = w.of(r["value"])
+                    except (ValueError, KeyError) as ex:
+                        raise AnalysisError(f"{fi.qualname} ({mode}): window analysis cannot model {ex}")
+                    bound = j if mode == "batch" else w.env.get("i", sp.Symbol("i", integer=True, nonnegative=True))
+                    bad = [(k, lo, hi) for k, (lo, hi) in d.deps.items() if not le(hi, bound)]
+                    run.oblige("C02.R1", f"{label} ({mode})", not bad, f"reads {d}",
+                               sample={"rule": "C02.R1", "method": label, "mode": mode, "columns_read": str(d)})
+                    if bad:
+                        k, lo, hi = bad[0]
+                        run.fail(Finding("C02.R1", fi.qualname, f"{label} {mode}: reads {k} columns [{sp.simplify(lo)}, {sp.simplify(hi)}]",
+                                         f"the value for {'column j' if mode == 'batch' else 'step i'} may read columns up to {sp.simplify(hi)} of {k}: anticipative "
+                                         "(the Black-Scholes modules take this as a default parameter of a listed derivative's pricer)",
+                                         file=str(prog.modules[fi.module].path), line=fi.node.lineno, case=mode))
     # PrevHedge
     ph = W.feature("PrevHedge", hedger=Obj(W.HEDGER, "hedger"))
     res = interp.explore(prog.lookup_method(ph.cls, "get"), [W.integer("i")], {}, self_obj=ph)
